@@ -18,8 +18,8 @@ CLAIMED = {
    technique="contract-based deductive verification at an abstract-ring layer: symbolic execution of the formulas to polynomials, normal-form/SMT proof of the representation identities per branch",
    design="§5 C02"),
  "C06": dict(
-   text="Deductive proof at the ring layer: for the towers of bn254, bls12-377, bls12-381, bls24-315 and bls24-317, Add/Sub/Double/Neg/Conjugate/Mul/Square/Inverse/MulByNonResidue/MulByElement/MulByE2 of every level and the sparse products (MulBy01, MulBy1, MulBy12, MulBy034, MulBy34, Mul034By034, Mul34By34, MulBy01234, MulBy014, Mul014By014, MulBy01245, ...) equal the schoolbook product in R[X]/(X^k - nr) computed by the tool from the documented defining polynomials; identities are proved over the integers (Z-lifting) by z3/cvc5 for every alias partition, including operands pointing into the receiver where the contract says so.",
-   note="Trusted: ring-layer interpretation of lower-layer methods by their own contracts; Z-lifting; documented tower polynomials. Inverse is proved in the form x*z == N(x)*inv(N(x)) (norm one level down). Not under contract: Div/Sqrt/Exp/BatchInvert/Frobenius/cyclotomic squarings/torus compression, bw6 towers, small-field extensions; amd64 E2 assembly kernels are assumed contracts.",
+   text="Deductive proof at the ring layer: for the towers of bn254, bls12-377, bls12-381, bls24-315, bls24-317, the 6-over-3 towers of bw6-633 and bw6-761 (with the value of their cubic non-residue) and the small-field extensions (koalabear/babybear E2, E4; goldilocks E2), Add/Sub/Double/Neg/Conjugate/Mul/Square/Inverse/MulByNonResidue/MulByElement/MulByE2 of every level and the sparse products (MulBy01, MulBy1, MulBy12, MulBy034, MulBy34, Mul034By034, Mul34By34, MulBy01234, MulBy014, Mul014By014, MulBy01245, ...) equal the schoolbook product in R[X]/(X^k - nr) computed by the tool from the documented defining polynomials; identities are proved over the integers (Z-lifting) by z3/cvc5 for every alias partition, including operands pointing into the receiver where the contract says so.",
+   note="Trusted: ring-layer interpretation of lower-layer methods by their own contracts; Z-lifting; documented tower polynomials. Inverse is proved in the form x*z == N(x)*inv(N(x)) (norm one level down). Not under contract: Div/Sqrt/Exp/BatchInvert/Frobenius/cyclotomic squarings/torus compression; amd64 E2 assembly kernels are assumed contracts.",
    technique="contract-based deductive verification at an abstract-ring layer (go/ssa symbolic execution yields polynomials; SMT proves the polynomial identities)",
    design="§5 C06"),
  "C07": dict(
